@@ -185,7 +185,14 @@ def run_tlc(spec, cfg, mdir, env=None, workers=1, timeout=1200, simulate=None, d
     if workers == 1:
         # many single-worker TLC processes run side by side for trace validation:
         # small heap (TLC sizes its fingerprint set from it), serial GC, C1 only
-        jvm = ["-XX:+UseSerialGC", "-XX:TieredStopAtLevel=1", "-XX:-UsePerfData"]
+        jvm = ["-XX:+UseSerialGC", "-XX:-UsePerfData"]
+        big = False
+        try:
+            big = env is not None and "TRACE" in env and os.path.getsize(str(env["TRACE"])) > 4 << 20
+        except OSError:
+            pass
+        if not big:
+            jvm.append("-XX:TieredStopAtLevel=1")      # short runs: start-up dominates; long ones need the optimising JIT
     else:
         jvm = ["-XX:+UseParallelGC"]
     args = ["java"] + jvm + ["-Xmx" + xmx, "-Xss16m"] + jopts + ["-cp", TLA_CP, "tlc2.TLC",
